@@ -521,6 +521,7 @@ func main() {
 	stats := flag.String("stats", "", "")
 	nogen := flag.String("nogen", "", "only replay the cases of this file")
 	par := flag.Int("par", 0, "concurrent cases")
+	mode := flag.String("mode", "timeline", "timeline | race")
 	flag.Parse()
 	corelog.SetDefault(corelog.NewNopLogger())
 
@@ -546,8 +547,32 @@ func main() {
 			readFile(f)
 		}
 		rnd := common.NewRand(*seed)
-		jobs = append(jobs, generate(rnd, *tier)...)
+		if *mode == "race" {
+			jobs = append(jobs, raceCases(*tier, *seed)...)
+		} else {
+			jobs = append(jobs, generate(rnd, *tier)...)
+		}
 	}
+	// racing cases run one after the other, by themselves (they need the cores)
+	out := common.NewOut()
+	var timelineJobs []job
+	for _, j := range jobs {
+		if strings.HasPrefix(j.c, "race ") {
+			func() {
+				defer func() {
+					if r := recover(); r != nil {
+						out.Case(j.key+j.c, "panic "+strings.ReplaceAll(fmt.Sprint(r), "\n", " "), "")
+					}
+				}()
+				obs := runRace(strings.Fields(j.c)[1:], out)
+				out.Count("kind:race")
+				out.Case(j.key+j.c, obs, j.c)
+			}()
+			continue
+		}
+		timelineJobs = append(timelineJobs, j)
+	}
+	jobs = timelineJobs
 	n := *par
 	if n == 0 {
 		n = 96
@@ -569,7 +594,6 @@ func main() {
 	}
 	wg.Wait()
 
-	out := common.NewOut()
 	dropped := 0
 	for i, j := range jobs {
 		if res[i].dropped {
